@@ -183,3 +183,15 @@ FACT_OBLIGATIONS = {
 # the cache operations are atomic (map update + store call under one lock): the basis of the request-granularity model
 for _p in ("C01", "C02", "C03", "C05", "C07", "C09", "C12"):
     FACT_OBLIGATIONS.setdefault(_p, []).append(("Sessions.FactsCacheAtomic", ["FactsCacheAtomic.cache_store_calls_locked", "FactsCacheAtomic.cache_store_calls_cover", "FactsCacheAtomic.compact_callers_locked"]))
+
+# functions TRANSLATED from the source on every run (extract/ir.go -> Facts.ir_*) and proved equal to the hand-written model
+# for all configurations, states and arguments (Sessions/Ir/Sem.lean is the interpreter, Sessions/FactsIr*.lean the theorems)
+_IR_REGEN = ("Sessions.FactsIrRegen", ["FactsIr.regenerateID_eq", "FactsIr.destroy_eq_model"])
+_IR_CACHE = ("Sessions.FactsIrCache", ["FactsIr.cacheSet_eq_model", "FactsIr.cacheDelete_eq_model", "FactsIr.cacheGet_eq_model"])
+_IR_HANDLERS = ("Sessions.FactsIrHandlers", ["FactsIr.set_eq_model", "FactsIr.delete_eq_model", "FactsIr.logOut_eq_model",
+                                             "FactsIr.getAndDelete_eq_model", "FactsIr.getAndDelete_default", "FactsIr.get_eq_model"])
+_IR_LOGIN = ("Sessions.FactsIrLogin", ["FactsIr.logIn_eq_model"])
+for _p, _mods in {"C01": (_IR_CACHE, _IR_HANDLERS), "C04": (_IR_REGEN,), "C05": (_IR_REGEN,), "C07": (_IR_REGEN, _IR_CACHE), "C08": (_IR_LOGIN,),
+                  "C09": (_IR_HANDLERS, _IR_CACHE, _IR_REGEN), "C10": (_IR_REGEN,), "C12": (_IR_CACHE,), "C18": (_IR_REGEN,)}.items():
+    for _m in _mods:
+        FACT_OBLIGATIONS.setdefault(_p, []).append(_m)
